@@ -56,7 +56,9 @@ META = dict(
     bound=dict(quick="19 configuration paths (9 of the graph, 10 customise-then-reload: all groups at once on a private and on "
                      "the public table, each of xray / covalent_radius / crystal_structure / magnetic_ff alone on both) "
                      "x all elements x all five tables (exhaustive over the tables); 203 "
-                     "first-access processes (10 attributes x up to 9 ways x 3 table configurations)",
+                     "first-access processes (10 attributes x up to 9 ways x 3 table configurations); the call interface of the "
+                     "Cromer-Mann module: every entry label (and short spelling) x charge argument (absent, None, 0, every charge "
+                     "with an entry) x fxrayatq / fxrayatstol (keyword, positional) x 4 Q, in every configuration path",
                thorough="all orderings of the 4 configuration events up to length 4 + the fixed quick paths + the pair "
                         "(customise, reload) of the private and of the public table at every position of every ordering up to "
                         "length 3 (adjacent, and with the reload at the end) + each of the 8 groups alone (173 paths) x the same; "
